@@ -53,7 +53,8 @@ def json_str(d):
     return json.dumps(d, sort_keys=True)
 
 CHECK = {
-    "lean_modules": ["P3R.Props.C04", "P3R.Props.C04Full", "P3R.Props.C04Packed", "P3R.Witness.C04", "P3R.Props.C11P"],
+    "lean_modules": ["P3R.Props.C04", "P3R.Props.C04Full", "P3R.Props.C04Packed", "P3R.Witness.C04", "P3R.Props.C11P",
+                     "P3R.Props.C04Gen", "P3R.Props.C10Gen", "P3R.Witness.C04Gen"],
     "theorems": ["P3R.C04.readers_agree", "P3R.C04.row_sat_add", "P3R.C04.row_sat_mul", "P3R.C04.row_sat_bool",
                  "P3R.C04.row_sat_muladd", "P3R.C04.row_sat_horner", "P3R.C04.accepted_alu_sat_partial", "P3R.C04.const_not_bound",
                  # composition: balanced bus + single creator (C09) + row constraints on cells => a satisfying assignment exists
@@ -61,19 +62,34 @@ CHECK = {
                  "P3R.C04.accepted_sat_genPrep", "P3R.Witness.C04.accepted_sat_nonvacuous", "P3R.Witness.C04.unchained_accepted_not_sat",
                  # packed rows: the unpacking argument (tuple-level bus equivalence of a packed row and its k steps; composition on any equivalent bus)
                  "P3R.C04.packed_tuple_net", "P3R.C04.accepted_sat_bus_equiv",
+                 # every extension degree D >= 1 (cells in the base field K, D per operand; circuit over the extension ring L; bus tuples
+                 # (slot, v_0..v_{D-1}); coefficient-wise row constraints of Model/AluAir): rows at ring level, bus for any payload type,
+                 # composition, accepted_sat as the D = 1 instance, the window tie to aluConstraints, the unpacking lemmas for D-tuples
+                 "P3R.C04.row_sat_add_gen", "P3R.C04.row_sat_mul_gen", "P3R.C04.row_sat_bool_gen", "P3R.C04.row_bool_coeffs_gen",
+                 "P3R.C04.row_sat_muladd_gen", "P3R.C04.row_sat_horner_gen", "P3R.C04.window_lane_blocks", "P3R.C04.window_horner_start_ring",
+                 "P3R.C04.bus_single_valued_gen", "P3R.C04.bus_single_valued_tuple", "P3R.C04.genPrep_slots_gen",
+                 "P3R.C04.rowOk_holds_gen", "P3R.C04.rowsOk_sat_gen", "P3R.C04.accepted_sat_gen", "P3R.C04.accepted_sat_genPrep_gen",
+                 "P3R.C04.accepted_sat_of_gen", "P3R.C04.accepted_sat_gen_bus_equiv", "P3R.C04.packed_tuple_net_gen",
+                 # converse (completeness) for every D under power-basis independence
+                 "P3R.C10.holds_rowOk_gen", "P3R.C10.honest_rows_gen", "P3R.C10.honest_tupleNet_gen", "P3R.C10.honest_bus_gen",
+                 "P3R.C10.honest_accepted_gen", "P3R.C10.run_honest_accepted_gen",
+                 # D = 2 witnesses over Z/7[X]/(X^2 - 3)
+                 "P3R.Witness.C04Gen.accepted_sat_gen_nonvacuous", "P3R.Witness.C04Gen.mul_relation_in_L",
+                 "P3R.Witness.C04Gen.rows_tampered_rejected", "P3R.Witness.C04Gen.bool_higher_coeff_rejected",
+                 "P3R.Witness.C04Gen.g_irreducible", "P3R.Witness.C04Gen.sat_cvW", "P3R.Witness.C04Gen.honest_rows_gen_nonvacuous",
                  # non-primitive rows (control part of the Poseidon circuit tables): what an accepted window implies about chaining,
                  # Merkle placement and the index accumulator, and what it leaves free (the known findings F-C08-5*, F-C11-P1)
                  "P3R.C11P.spongeChain_iff", "P3R.C11P.merklePlace_iff", "P3R.C11P.arity4Place_iff", "P3R.C11P.generic_window_iff",
                  "P3R.C11P.accChain2_iff", "P3R.C11P.accChain4_iff", "P3R.C11P.generic_chain_start_free", "P3R.C11P.compact_start_iff"],
     "run": c04_run,
     "trusted_base": ["ideal STARK/LogUp: an accepted proof implies row constraints hold on some committed trace and the WitnessChecks bus is balanced as a signed multiset (DESIGN §2)"],
-    "assumptions": ["D = 1 and single-step Horner rows in the Lean composition theorem (packed arities are covered by C11's packed2/3_iff); accepted_sat assumes no ALU operand is off the bus (role `skip`; 0 of 36k generated rows in the C09 run) and that a Const row's cell is the circuit's constant (false today: finding F4); the permutation rounds of the Poseidon tables are uninterpreted (control part modelled in Model/PoseidonCtl, tied by C11's run); recompose rows carry no constraint (F5b)"],
+    "assumptions": ["the Lean composition theorem holds for every extension degree D >= 1 (accepted_sat_gen: cells in the base field, D per operand, bus tuples (slot, v_0..v_{D-1}), coefficient-wise row constraints, relations in the extension ring L generated by a root alpha of the ALU's multiplication kind — KindRoot; accepted_sat is its D = 1 instance, accepted_sat_of_gen); it speaks about single-step Horner rows of the unscheduled abstract trace — packed arities enter through the unpacking argument (C11.packed_window_sound_gen for every D and arity, packed_tuple_net_gen, accepted_sat_gen_bus_equiv), whose list-level glue from a concrete scheduled matrix is not one theorem; the row selector is one non-zero value `sel` (one-hot selectors of the preprocessed trace; window_lane_blocks ties the constraint vectors to aluConstraints); accepted_sat(_gen) assumes no ALU operand is off the bus (role `skip`; 0 of 36k generated rows in the C09 run) and that a Const row's cells denote the circuit's constant (false today: finding F4); the permutation rounds of the Poseidon tables are uninterpreted (control part modelled in Model/PoseidonCtl, tied by C11's run); recompose rows carry no constraint (F5b)"],
 }
 
 MANIFEST_ENTRY = {
     "property_id": "C04", "quick_cmd": "bin/check C04 --tier quick", "thorough_cmd": "bin/check C04 --tier thorough",
     "evidence_file": "evidence/C04.json", "replay_cmd_template": "bin/check C04 --replay {path}", "engine": "lean-models",
     "technique": "Lean 4 proof that balanced bus + vanishing row constraints imply the op relations (partial: constants, Horner) + forged-trace prove/verify",
-    "level_claimed": {"category": "proof", "text": "accepted_sat: a balanced WitnessChecks bus over the roles of the role scan (single creator proved in C09) together with vanishing row constraints (ADD/MUL/BOOL/MUL_ADD/single-step HORNER, D=1) yields an assignment satisfying every op relation — proved for every circuit and trace, with readers_agree / bus_single_valued / row_sat_* as steps; const_not_bound proves the acceptance conditions do not bind constants (finding F4, replayed on the real prover every run); forged traces through the real prover judged by an independent sat check.", "design_ref": "4/C04"},
+    "level_claimed": {"category": "proof", "text": "accepted_sat: a balanced WitnessChecks bus over the roles of the role scan (single creator proved in C09) together with vanishing row constraints (ADD/MUL/BOOL/MUL_ADD/single-step HORNER) yields an assignment satisfying every op relation — proved for every circuit and trace, with readers_agree / bus_single_valued / row_sat_* as steps; accepted_sat_gen: the same for every extension degree D >= 1 (D coefficient cells per operand, D-tuples on the bus, coefficient-wise constraints with the binomial / quintic / base product, relations in the extension ring; D = 2 witness over F_49), accepted_sat being its D = 1 instance (accepted_sat_of_gen); converse run_honest_accepted_gen under power-basis independence; const_not_bound proves the acceptance conditions do not bind constants (finding F4, replayed on the real prover every run); forged traces through the real prover judged by an independent sat check.", "design_ref": "4/C04"},
     "level_note": "cryptographic soundness assumed ideal; constants (F4) and the arity-2 Merkle mode / unfed start limbs of the Poseidon tables (F-C08-5*, F-C11-P1) are known findings; permutation rounds uninterpreted",
 }
